@@ -91,6 +91,13 @@ def equality(args):
         S.id = A.id
         ctx.check('equality-does-not-depend-on-the-id', Not(Iff(A == S, _close(a, b))))
         ctx.check('equality-does-not-depend-on-the-id(swapped)', Not(Iff(S == A, _close(a, b))))
+        # non-default option: the stored rounding precision of a point (features['precision'], used for the signed
+        # costs) is not part of the meaning of equality -- 1e-10 whatever the two points carry
+        for pa, pb in ((3, 3), (12, 12), (2, 10), (0, 7)):
+            P, Q = I.Individual(list(a)), I.Individual(list(b))
+            P.features['precision'], Q.features['precision'] = pa, pb
+            ctx.check('equality-does-not-depend-on-the-stored-precision(%d,%d)' % (pa, pb), Not(Iff(P == Q, _close(a, b))))
+            ctx.check('equality-does-not-depend-on-the-stored-precision(%d,%d;swapped)' % (pa, pb), Not(Iff(Q == P, _close(a, b))))
         ha, hb = A.__hash__(), B.__hash__()
         ctx.check('identical-vectors-identical-hash', And(And(*[x == y for x, y in zip(a, b)]), ha != hb))
         ctx.check('hash-is-int-like', not isinstance(ha, (int, core.SNum)))
